@@ -29,7 +29,10 @@ RULE = ("1-3 sample buffers per case, 1-4 frames per buffer: DF17 with correct p
         ' Also: the noise level is drawn per buffer, the last frame of a buffer may end anywhere up to the buffer end, and complex IQ samples of arbitrary phase are delivered through _read_callback in read-size pieces (leg iq_callback); buffers whose first 6.5-9 ms are packed with strong replies every 400 samples before a quiet stretch and weak frames, and buffers longer than buffer_size (direct call, or two equal reads that overshoot it) with a frame across sample index buffer_size (leg long_buffers); gaps down to one frame length (112 samples behind a short frame); one reader instance over 65 / 650 million samples of dense buffers (leg long_run).')
 ASSUMPTIONS = ["noise samples are additionally capped at 0.19: the preamble matcher accepts any sample >= 0.2 as a pulse, so stronger noise could legitimately "
                "look like a preamble and no threshold demodulator could be expected to reject it",
-               "frames lie completely inside their buffer", "time stamps returned with the frames are ignored"]
+               "frames lie completely inside their buffer", "time stamps returned with the frames are ignored",
+               "two signal models: (a) the pulses arrive with the stated amplitude (10 % jitter, kept inside 0.3-1.4) and the noise fills the gaps and the empty chips - judged from 10 dB up; "
+               "(b) the noise is also present under the pulses (sample = |pulse + noise at a random phase|, cut off at 1.414) - judged only from 14 dB up, because at 10 dB a sample of a 0.3 pulse "
+               "can fall to 0.205 and whether that still is 'amplitude 0.3, 10 dB above the floor' is a matter of reading the property"]
 
 PRE = [1, 0, 1, 0, 0, 0, 0, 1, 0, 1, 0, 0, 0, 0, 0, 0]
 
@@ -84,6 +87,15 @@ def synth(buf, nlevel):
     for it in buf["items"]:
         slots += modulate(it["msg"], it["amp"], it["jseed"], tuple(it.get("smear", ())))
         slots += [None] * it["gap"]
+    if buf.get("additive"):
+        # the noise is present under the pulses too: every sample is |pulse + noise| with the noise at a pseudo-random phase, so a pulse of amplitude A
+        # arrives anywhere in [A - n, A + n] (cut off at 1.414, the largest magnitude an 8-bit I/Q pair can have).  Only used with n <= A_min / 5.
+        import cmath
+        out = []
+        for k, s in enumerate(slots):
+            nz = noise_sample(buf["shape"], nlevel, buf["nseed"], k)
+            out.append(min(1.414, abs((s or 0.0) + nz * cmath.exp(2j * cmath.pi * unit(buf["nseed"] ^ 0x5BD1E995, k)))))
+        return out
     return [s if s is not None else noise_sample(buf["shape"], nlevel, buf["nseed"], k) for k, s in enumerate(slots)]
 
 
@@ -181,6 +193,12 @@ def s_case(draw):
                      "items": items,
                      "shape": draw(st.sampled_from(["zero", "constant", "uniform", "uniform", "two-level", "mostly-on"])), "nseed": draw(gen.ubits(32)),
                      "rho": draw(st.one_of(gen.ufloat(0.0, 0.316), gen.ufloat(0.2, 0.316), st.sampled_from([0.0, 0.0, 0.25, 0.3159])))})
+        if draw(gen.uint(0, 3)) == 0 and not any(it.get("smear") for it in items):
+            bufs[-1]["additive"] = True   # the noise also rides on the pulses (leg-level cap of 14 dB, applied in the check)
+            # the reader takes its silence threshold from a 226-sample window behind the frame start; behind a short frame that window reaches the first
+            # pulse of a successor 112-113 samples away.  With model (a) amplitudes (ratio <= 4.67 < 5) that is harmless; with noise under the pulses a
+            # 0.3 frame before a 1.3 frame would be cut - an observation about reading (b) of the property, recorded in DESIGN.md 7.4, not judged here
+            bufs[-1]["items"] = [dict(it, gap=max(it["gap"], 120)) if len(it["msg"]) == 14 else it for it in items]
         if bufs[-1]["lead"] < 400:
             # the reader measures the noise floor as the lowest mean of an aligned 100 us window (200 samples): a buffer has to contain one that
             # is all noise (a real buffer is 100 ms long and always does) - here behind the last frame
@@ -215,6 +233,9 @@ def chk_case(case, note):
     for bi, buf in enumerate(case["buffers"]):
         # every buffer has its own noise level: each pulse of the buffer is >= 10 dB above each of its noise samples
         nlevel = min(buf.get("rho", case["rho"]) * min_amp(buf), 0.19)
+        if buf.get("additive"):
+            nlevel = min(nlevel, min_amp(buf) / 5.0)   # noise under the pulses: judged from 14 dB up (see ASSUMPTIONS)
+            note.cls("noise-under-the-pulses")
         samples = synth(buf, nlevel)
         rd.signal_buffer = list(rd.signal_buffer) + samples
         r = call(rd._process_buffer)
